@@ -194,6 +194,34 @@ class Check:
                 lines.append("VIOLATION property=%s replay=%s no-failing-input-found" % (self.pid, path))
             else:
                 undecided.append(it)
+        # thorough tier: besides deciding every obligation with the solver (no memo), the contracts are also evaluated at run
+        # time on the real code by the native replay oracle over its whole configuration list.  Bounded, never counted as
+        # proof; a failing input it finds is a violation replayed on the real code.
+        if self.tier == "thorough" and oracle is not None and not self.violations:
+            pseudo = dict(name="thorough:run-time-contract-check", clause="contracts evaluated at run time on the real code "
+                          "(native oracle, fixed configuration list)", model=None, status="unknown", reason="", func="",
+                          key="thorough:oracle", kind="runtime")
+            failing = None
+            try:
+                failing = oracle(pseudo)
+            except Exception as e:
+                print("REPLAY-HARNESS problem in the thorough run-time check: %r" % (e,), file=sys.stderr)
+            self.bounded.append(dict(what="run-time evaluation of the contracts on the real code by the native replay oracle "
+                                          "(its fixed list of configurations and histories)", bound="oracle configuration list",
+                                     counted_as_proof=False, failing_input_found=failing is not None))
+            if failing is not None:
+                hit = None
+                for k in known:
+                    if known_matcher and known_matcher(failing, k):
+                        hit = k
+                        break
+                if hit:
+                    if hit not in self.known_hits:
+                        self.known_hits.append(hit)
+                else:
+                    path = self._write_replay(pseudo, failing)
+                    self.violations.append(dict(obligation=pseudo["name"], replay=path, failing_input=failing))
+                    lines.append("VIOLATION property=%s replay=%s" % (self.pid, path))
         # functions the verifier could not bring within reach (unsupported construct after a code change): the
         # obligations are undecided; the replay oracle is still asked for a failing input on the real code
         still_errors = []
